@@ -232,6 +232,18 @@ func c21wExec(endpoints []string, cli *clientv3.Client, cs c21wCase) (res c21wRu
 				break
 			}
 		}
+		raced := false
+		if chosen < 0 && op == "grow" && code == 0 && c21Eq(after, hist[cur()]) {
+			// the put wrote the unchanged etcd snapshot: the broker's own watcher refreshed
+			// between CreatePartitions' local growth and its put (open finding
+			// grow-lost-to-refresh-before-persist, here produced by the real watcher)
+			for _, k := range cands {
+				if c, _ := c21wSim(op, hist[k], topic, n); c == 0 {
+					chosen, raced = k, true
+					break
+				}
+			}
+		}
 		if chosen < 0 {
 			chosen = sync[b] // no linearisation found: let the model comparison report it
 			res.tags["no-linearisation-found"] = true
@@ -248,6 +260,10 @@ func c21wExec(endpoints []string, cli *clientv3.Client, cs c21wCase) (res c21wRu
 			ev = []string{fmt.Sprintf("BDelete %d%%nat %s", b, cqStr(topic))}
 		case "grow":
 			ev = []string{fmt.Sprintf("BGrowLocal %d%%nat %s %s", b, cqStr(topic), cqZ(int64(n)))}
+			if raced {
+				ev = append(ev, fmt.Sprintf("BRefresh %d%%nat", b))
+				res.tags["watcher-refresh-inside-CreatePartitions"] = true
+			}
 			if code == 0 {
 				ev = append(ev, fmt.Sprintf("BGrowPersist %d%%nat", b))
 			}
@@ -274,7 +290,9 @@ func c21wExec(endpoints []string, cli *clientv3.Client, cs c21wCase) (res c21wRu
 		res.groups = append(res.groups, g)
 		if code == 0 {
 			key := "acked-topic-lost-by-derived-broker-put"
-			if stale && !quiescent {
+			if raced {
+				key = "grow-lost-to-refresh-before-persist" // open finding
+			} else if stale && !quiescent {
 				key = "broker-put-of-stale-local-copy" // open finding: put inside the delivery window
 				res.tags["stale-put-inside-delivery-window"] = true
 			} else if stale {
@@ -513,7 +531,7 @@ func TestVerifC21Watch(t *testing.T) {
 		}
 		if run.fail != "" {
 			shr := cs
-			if run.key != "broker-put-of-stale-local-copy" { // timing-dependent known finding: not shrunk
+			if run.key != "broker-put-of-stale-local-copy" && run.key != "grow-lost-to-refresh-before-persist" { // timing-dependent known findings: not shrunk
 				for pi := range shr.Phases {
 					pi := pi
 					shr.Phases[pi] = vShrink(shr.Phases[pi], func(ws []c21wWrite) bool {
